@@ -430,6 +430,12 @@ func checkC02(c caseXZ, rec *ev.Rec) *ev.Failure {
 	if nontrivial {
 		rec.NonTrivial(caseHash(c))
 	}
-	rec.Sample(m+fmt.Sprint(len(st.Blocks) > 1), map[string]any{"cfg": c.Cfg, "data": c.Data.String(), "blocks": len(st.Blocks), "out_len": len(wr.out), "max_dist": st.Blocks[0].Stats.MaxDist})
+	maxDist := int64(0)
+	for _, b := range st.Blocks {
+		if b.Stats.MaxDist > maxDist {
+			maxDist = b.Stats.MaxDist
+		}
+	}
+	rec.Sample(m+fmt.Sprint(len(st.Blocks) > 1), map[string]any{"cfg": c.Cfg, "data": c.Data.String(), "blocks": len(st.Blocks), "out_len": len(wr.out), "max_dist": maxDist})
 	return nil
 }
